@@ -1,0 +1,9 @@
+//go:build verif
+
+package store
+
+import "github.com/feichai0017/NoKV/pb"
+
+// VerifApplyAdmin feeds an admin command to the store's apply handler exactly as
+// a committed raft entry would (handleAdminCommand).
+func (s *Store) VerifApplyAdmin(cmd *pb.AdminCommand) error { return s.handleAdminCommand(cmd) }
